@@ -3,6 +3,7 @@
 from __future__ import annotations
 
 import copy
+import functools
 import inspect
 import itertools
 import operator
@@ -286,18 +287,14 @@ class Module(nn.Module):
                     + " Make sure the parameter is registered before registering a prior."
                 )
 
-            def closure_new(module: nn.Module) -> Tensor:
-                return getattr(module, param)
-
-            closure = closure_new
+            # module-level functions bound with functools.partial (not local functions), so that a module with a prior
+            # registered by parameter name can still be pickled
+            closure = functools.partial(_get_named_param, param)
 
             if setting_closure is not None:
                 raise RuntimeError("Must specify a closure instead of a parameter name when providing setting_closure")
 
-            def setting_closure_new(module: Module, val: Union[Tensor, float]) -> None:
-                module.initialize(**{param: val})
-
-            setting_closure = setting_closure_new
+            setting_closure = functools.partial(_set_named_param, param)
 
         else:
             closure = param_or_closure
@@ -487,6 +484,14 @@ class Module(nn.Module):
     def variational_parameters(self):
         for _, param in self.named_variational_parameters():
             yield param
+
+
+def _get_named_param(param: str, module: nn.Module) -> Tensor:
+    return getattr(module, param)
+
+
+def _set_named_param(param: str, module: Module, val: Union[Tensor, float]) -> None:
+    module.initialize(**{param: val})
 
 
 def _validate_module_outputs(outputs):
